@@ -86,6 +86,7 @@ def annotate(alg, workdir, repo=REPO):
         overlay.nth_loop_rule("%s_update" % alg, r"while \(remain_len >= ISAL_%s_BLOCK_SIZE\)(?P<at>) \{" % A, "VF_L_B_UPDATE"),
     ]
     out, fired = overlay.apply(text, rules)
+    overlay.require_loop_count(text, "%s_update" % alg, 1)
     out += HARNESS % p
     os.makedirs(workdir, exist_ok=True)
     dst = os.path.join(workdir, "%s_ctx_base.c" % alg)
